@@ -25,6 +25,8 @@ import (
 	"go.temporal.io/server/api/adminservice/v1"
 	"go.temporal.io/server/common/log"
 	"google.golang.org/grpc"
+	"google.golang.org/grpc/codes"
+	"google.golang.org/grpc/status"
 
 	"github.com/temporalio/s2s-proxy/config"
 	vrt "github.com/temporalio/s2s-proxy/internal/verifrt"
@@ -289,7 +291,7 @@ func vfNewCCExec(sc vfCCScenario) *vfCCExec {
 			panic(err)
 		}
 		e.mm = mm.(*multiMuxManager)
-		e.mm.muxProvider.Start()
+		e.mm.Start() // the provider, the once-a-minute status goroutine and the start-up delay (virtual time)
 		return e
 	}
 	builder := func(add AddNewMux, ctx context.Context) (MuxProvider, error) {
@@ -308,7 +310,7 @@ func vfNewCCExec(sc vfCCScenario) *vfCCExec {
 		panic(err)
 	}
 	e.mm = mm.(*multiMuxManager)
-	e.mm.muxProvider.Start()
+	e.mm.Start() // the provider, the once-a-minute status goroutine and the start-up delay (virtual time)
 	return e
 }
 
@@ -458,6 +460,10 @@ func (e *vfCCExec) rpc() {
 		}
 	} else if served != "" {
 		e.violate("rpc/served-although-no-session-registered", fmt.Sprintf("no session is registered, yet the call was answered by %s", served))
+	} else if len(e.idToPeer) > 0 && status.Code(lastErr) != codes.Unavailable {
+		// sessions existed and none remains: the client connection has been told so (an empty endpoint list), and a call
+		// is answered with Unavailable at once - it does not wait for its deadline
+		e.violate("rpc/no-session-left-but-not-reported-unavailable", fmt.Sprintf("every session is gone, the call ended with %v (want code Unavailable)", lastErr))
 	}
 }
 
